@@ -39,17 +39,20 @@ CHECK = {'level': 'exploration',
                   'db.long_chain_writes_that_pruned': 4,
                   'db-retry.forced_cas_retries': 2000,
                   'db-retry.winning_bodies_checked': 2000,
-                  'db-retry.deletions_that_promoted_another_leaf': 50},
+                  'db-retry.deletions_that_promoted_another_leaf': 50,
+                  'db-retry.deletions_retried_after_cas_loss': 500},
  'assumptions': ['a push always carries the full ancestry of the pushed revision (truncated ancestries make the resulting tree order dependent by design)',
                  'the tombstone flag of an interior revision is not part of the compared state: an ancestor that arrives through a descendant\'s history has none',
                  'bodies of non-leaf and non-winning revisions are not compared (not promised); only the winning body is',
                  'with revs_limit 1..4 (below the product minimum, used to reach pruning with small trees) only parents-first orders are compared and only on '
                  'non-deleted leaves, winner, winning body and Deleted/Conflict: pruning of tombstoned branches depends on the moment it runs',
-                 'revision ids are <generation>-<digest> with digests compared bytewise']}
+                 'revision ids are <generation>-<digest> with digests compared bytewise',
+                 'db-retry: CAS losses are forced with a second gateway write to the same document inside the compute->write window exposed by the storage hook; '
+                 'only single losses (one retry per write) are forced']}
 
 META = {'technique': 'runtime monitoring: independent well-formedness monitor (own rev-id parser, own winner order) applied after every mutation of real RevTree values '
               'and to every stored document re-read from the bucket; model-based and differential order-independence oracle over all insertion orders; codec '
-              'round-trip oracle; pruning-preservation oracle',
+              'round-trip oracle; pruning-preservation oracle; the same database workload with forced CAS retries (storage hook H1)',
  'level_text': 'Exhaustive in a small scope at RevTree level: all insertion orders of all revision sets up to the size bound are executed against the real '
                'addRevision / winningRevision / pruneRevisions / MarshalJSON / UnmarshalJSON, and after every mutation an independent monitor decides acyclicity, '
                'generation order, winner = max leaf by (not deleted, generation, digest) and the branched/conflict results. At database level the same sets are '
